@@ -2,8 +2,8 @@
    The model proper is NOT written here: it is GU.C10.Gen, regenerated from cast.go / boundary.go / number.go by
    translator/cmd/gocast2coq on every run, over the hand-written semantic base GU.C10.GoNum.  This file only
    (1) indexes the ten generated conversion functions by their target kind, (2) states the specification
-   "truncate, then clamp" they are compared with, and (3) defines the correspondence case. *)
-From Coq Require Import ZArith Bool List.
+   "truncate, then clamp" they are compared with, and (3) defines the correspondence cases. *)
+From Coq Require Import ZArith NArith Bool List.
 Import ListNotations.
 From GU Require Export C10.GoNum C10.Gen.
 Local Open Scope Z_scope.
@@ -52,26 +52,40 @@ Definition res_le (a b : res val) : Prop :=
 
 Definition is_nan (v : val) : bool := match v with VF NaN => true | _ => false end.
 
-(* ---------- correspondence case: one observed call of the real generic function ---------- *)
-Record case := mkCase {
-  c_src : gkind;      (* underlying kind of the source type *)
-  c_named : bool;     (* source is a named type (type MyX <kind>) *)
-  c_tgt : gkind;      (* ToInt … ToUint64 *)
-  c_in : Z;           (* integer sources: the value; float sources: the IEEE-754 bit pattern (binary32 / binary64) *)
-  c_out : Z           (* the value the implementation returned *)
-}.
-
-Definition case_value (c : case) : val :=
-  if is_float (c_src c) then VF (decode (c_src c) (c_in c)) else VZ (c_in c).
+(* ---------- correspondence cases: observed calls of the real generic functions ---------- *)
+(* An input is given as a Z: integer sources: the value; float sources: the IEEE-754 bit pattern (binary32/binary64). *)
+Definition input_value (src : gkind) (i : Z) : val :=
+  if is_float src then VF (decode src i) else VZ i.
 
 (* The model must predict the observed output exactly; a platform-defined model result is acceptable only for NaN
    (for every other input the theorems say it cannot occur, so it counts as a disagreement). *)
-Definition check_case (c : case) : bool :=
-  let s := mkTy (c_src c) (c_named c) in
-  let v := case_value c in
-  has_typeb s v && satisfies (cast_constraint (c_tgt c)) s &&
-  match cast (c_tgt c) s v with
-  | Ok (VZ z) => z =? c_out c
+Definition check_one (src : gkind) (nm : bool) (tgt : gkind) (i o : Z) : bool :=
+  let s := mkTy src nm in
+  let v := input_value src i in
+  has_typeb s v &&
+  match cast tgt s v with
+  | Ok (VZ z) => z =? o
   | ImplDefined => is_nan v
   | _ => false
+  end.
+
+(* how the outputs of a run of consecutive integer inputs were observed to behave *)
+Inductive runmode := RConst (c : Z) | RIdent.
+
+Inductive case :=
+  (* calls  To<tgt>(<src>(i)) = o  for each (i, o) of the list; named = the source is `type My<src> <src>` *)
+  | CPairs (src : gkind) (nm : bool) (tgt : gkind) (io : list (Z * Z))
+  (* integer sources: EVERY input lo, lo+1, …, lo+n-1 gave the constant c / gave back the input itself *)
+  | CRun (src : gkind) (nm : bool) (tgt : gkind) (lo : Z) (n : N) (m : runmode).
+
+Definition check_case (c : case) : bool :=
+  match c with
+  | CPairs src nm tgt io =>
+      satisfies (cast_constraint tgt) (mkTy src nm) &&
+      forallb (fun p => check_one src nm tgt (fst p) (snd p)) io
+  | CRun src nm tgt lo n m =>
+      satisfies (cast_constraint tgt) (mkTy src nm) && is_int src &&
+      snd (N.iter n (fun st => (fst st + 1,
+                                snd st && check_one src nm tgt (fst st) (match m with RConst c => c | RIdent => fst st end)))
+                  (lo, true))
   end.
